@@ -148,6 +148,11 @@ func explicitConstraintType(typeParam *types.Var) (t types.Type) {
 			return t.Term(0).Type()
 		}
 	}
+	// comparable itself cannot be used as a type argument; any comparable
+	// type will do for the implementation check.
+	if underlying.IsComparable() && underlying.NumMethods() == 0 && types.Satisfies(types.Typ[types.Int], underlying) {
+		return types.Typ[types.Int]
+	}
 	return nil
 }
 
